@@ -254,7 +254,8 @@ func latchOf(l *Loop) *ssa.BasicBlock {
 // reachedOnEveryNonEmptyPath: every return of the update either follows the loop or lies on the
 // emptied-pool path (which re-creates the pool from the new list) or is an error return before any effect.
 func reachedOnEveryNonEmptyPath(fn *ssa.Function, rng *ssa.Range, pl *pool) bool {
-	cs := newCondSpace(fn, recOf(lenZeroAtom("poolEmpty", lenOfField("gcpBalancer.scRefs"))), "poolEmpty")
+	// paths that avoid the loop: reaching conditions computed with the loop's entry block removed
+	cs := newCondSpaceAvoid(fn, recOf(lenZeroAtom("poolEmpty", lenOfField("gcpBalancer.scRefs"))), map[*ssa.BasicBlock]bool{rng.Block(): true}, "poolEmpty")
 	for _, r := range returnsOf(fn) {
 		if dominatesInstr(rng, r) {
 			continue
